@@ -43,7 +43,9 @@ J1 == Insp("j1", <<"j", "1">>, Cmd("exit", 0, "none"), FALSE)
 \* inspection exits non-zero / its inner link is missing): the failing evidence is not needed for the threshold
 Causes == {"none", "badsig", "expired", "missing", "unauth", "badlinksig", "thr", "disagree",
            "rule", "rule_match_insp", "subfail", "subok", "subok_rule",
-           "surplus_subexpired", "surplus_subinspfail", "surplus_submissing"}
+           "surplus_subexpired", "surplus_subinspfail", "surplus_submissing",
+           \* the failing step is not the last one: a second step, after it, passes all its checks
+           "rule_first_of_two"}
 
 Sub(exp) ==
   LayoutD(<<GoodSig("k1")>>, exp, <<"k3">>,
@@ -62,9 +64,11 @@ Layout(cause, insps) ==
                   IF cause \in {"thr", "disagree"} \cup Surplus THEN <<"k1", "k2">> ELSE <<"k1">>,
                   IF cause \in {"thr", "disagree"} THEN 2 ELSE 1,
                   << >>,
-                  CASE cause \in {"rule", "subok_rule"} -> <<Simple("DISALLOW", <<"*">>)>>
+                  CASE cause \in {"rule", "subok_rule", "rule_first_of_two"} -> <<Simple("DISALLOW", <<"*">>)>>
                     [] cause = "rule_match_insp" -> <<MatchR(<<"*">>, "P", "i1"), MatchR(PA, "M", "i1"), Simple("DISALLOW", <<"*">>)>>
-                    [] OTHER -> <<Simple("ALLOW", <<"*">>)>>)>>,
+                    [] OTHER -> <<Simple("ALLOW", <<"*">>)>>)>>
+          \o (IF cause = "rule_first_of_two"
+              THEN <<StepD("s2", <<"k3">>, 1, << >>, <<Simple("ALLOW", <<"*">>)>>)>> ELSE << >>),
           insps)
 
 Files(cause) ==
@@ -85,6 +89,9 @@ Files(cause) ==
     [] cause \in {"subok", "subok_rule"} ->
                                <<Entry(<< >>, "s1", "k1", Sub(1000)),
                                  Entry(<<"s1.k1">>, "in1", "k3", LinkD("in1", <<GoodSig("k3")>>, {}, ProdA))>>
+    [] cause = "rule_first_of_two" ->
+                               <<Entry(<< >>, "s1", "k1", LinkD("s1", <<GoodSig("k1")>>, {}, ProdA)),
+                                 Entry(<< >>, "s2", "k3", LinkD("s2", <<GoodSig("k3")>>, {}, ProdA))>>
     [] OTHER                -> <<Entry(<< >>, "s1", "k1", LinkD("s1", <<GoodSig("k1")>>, {}, ProdA))>>
 
 MCInit ==
